@@ -33,6 +33,8 @@ pub enum MOp {
     SetSource(u16, String),
     SetSourceContents(u16, Option<String>),
     SaveLoad,
+    /// `set_source(i, get_source(i))`: write back what the map currently reads for that source
+    SetSourceToReading(u16),
 }
 
 #[derive(Clone, Debug, Hash, Serialize, Deserialize)]
@@ -281,6 +283,13 @@ fn check(c: &Case, obs: &mut Obs) -> Verdict {
                         sm.set_source_contents(i, text.as_deref());
                     }
                 }
+                MOp::SetSourceToReading(sel) => {
+                    if let Some(i) = pick_id(Some(*sel), raw.len()) {
+                        let reading = join_source(root.as_deref(), &raw[i as usize]);
+                        raw[i as usize] = reading.clone();
+                        sm.set_source(i, &reading);
+                    }
+                }
                 MOp::SaveLoad => {
                     let mut out = vec![];
                     sm.to_writer(&mut out).map_err(|e| format!("to_writer: {e}"))?;
@@ -309,10 +318,16 @@ fn check(c: &Case, obs: &mut Obs) -> Verdict {
                 obs.class_if(root.as_deref().map(|r| !r.is_empty()).unwrap_or(false) && (s.starts_with('/') || s.starts_with("http")), "absolute-source-under-a-root");
             }
             MOp::SetSourceContents(..) => obs.class("contents-set-on-map"),
+            MOp::SetSourceToReading(_) => {
+                seen_set_source = true;
+                obs.class("set_source(current reading)");
+            }
             MOp::SaveLoad => saveload = true,
         }
     }
     obs.class_if(readded, "string-added-twice-non-consecutively");
+    obs.class_if(m.names.len() >= 32, ">=32-names");
+    obs.class_if(m.sources.len() >= 32, ">=32-sources");
     obs.class_if(c.map_ops.iter().filter(|o| matches!(o, MOp::SaveLoad)).count() >= 2, "repeated-save-load");
     obs.class_if(m.contents.len() < m.sources.len() && !m.contents.is_empty(), "contents-shorter-than-sources(growth)");
     if readded && seen_root_before_source && root_after_source && saveload {
@@ -365,6 +380,7 @@ fn mop() -> BoxedStrategy<MOp> {
         3 => (any::<u16>(), src_string()).prop_map(|(i, s)| MOp::SetSource(i, s)),
         2 => (any::<u16>(), content_opt()).prop_map(|(i, t)| MOp::SetSourceContents(i, t)),
         2 => Just(MOp::SaveLoad),
+        2 => any::<u16>().prop_map(MOp::SetSourceToReading),
     ]
     .boxed()
 }
@@ -375,8 +391,27 @@ fn histories(t: Tier) -> BoxedStrategy<Case> {
         .boxed()
 }
 
+/// Long builder histories over families of 80 (thorough 400) distinct strings: the tables
+/// grow to dozens / hundreds of entries and strings are re-added at every table size.
+fn long_histories(t: Tier) -> BoxedStrategy<Case> {
+    let n = t.pick(80u32, 400);
+    let op = prop_oneof![
+        4 => numbered("src/f", ".js", n).prop_map(BOp::AddSource),
+        5 => numbered("name", "", n).prop_map(BOp::AddName),
+        3 => (0u32..50, 0u32..9, 0u32..9, proptest::option::weighted(0.8, numbered("src/f", ".js", n)), proptest::option::of(numbered("name", "", n)), any::<bool>())
+            .prop_map(|(dc, sl, sc, src, name, range)| BOp::Add { dc, sl, sc, name: if src.is_some() { name } else { None }, src, range }),
+        1 => (any::<u16>(), content_opt()).prop_map(|(i, t)| BOp::SetSourceContents(i, t)),
+    ];
+    (vec(op, 100..t.pick(400, 1500)), vec(mop(), 0..6))
+        .prop_map(|(builder_ops, map_ops)| Case { builder_ops, map_ops })
+        .boxed()
+}
+
 fn subs() -> Vec<Sub> {
-    vec![gen_sub("histories", histories, |t| t.pick(30_000, 600_000), check)]
+    vec![
+        gen_sub("long_histories", long_histories, |t| t.pick(400, 8_000), check),
+        gen_sub("histories", histories, |t| t.pick(30_000, 600_000), check),
+    ]
 }
 
 pub const DEF: PropertyDef = PropertyDef {
